@@ -190,6 +190,8 @@ func Main() (retcode int) { //nolint:funlen // we do have quite a lot of flags a
 		}
 		if !*sharedState {
 			ns := eval.NewState()
+			ns.NoReg = *noRegister // the same limits and options for every file, not only the first.
+			ns.MaxDepth = options.MaxDepth
 			ns.Out = s.Out
 			ns.LogOut = s.LogOut
 			s = ns
